@@ -1,5 +1,6 @@
-\* deviation-tolerant configuration.  ALL findings are repaired in /repo (930d13f, 4ef0222, 8020218,
-\* 8c78f49), so every constant is FALSE here (= WsTrace.cfg); the driver sets them to TRUE only to NAME
+\* deviation-tolerant configuration.  The round-1 findings are repaired in /repo (930d13f, 4ef0222,
+\* 8020218, 8c78f49): their constants are FALSE here; the driver sets them to TRUE only to NAME
+\* (AllowLateStart = TRUE: the one OPEN finding, start-after-close, see known_findings.d/C11.json)
 \* a violation should one of the old behaviours come back (and, while a finding is open, a constant
 \* set to TRUE here keeps the rest of such traces checked).
 SPECIFICATION TraceSpec
@@ -7,6 +8,7 @@ CONSTANTS
   AllowDupStart = FALSE
   AllowSilentInit = FALSE
   AllowRestartRace = FALSE
+  AllowLateStart = TRUE
   AllowDoubleError = FALSE
   SInsts = {}
   SIds = {}
